@@ -1,5 +1,92 @@
 //! Censuses: finite dimensions enumerated completely.
 
 pub fn materialize(spec: &str) -> Option<Vec<u8>> {
+    if spec.starts_with("leb:") {
+        return materialize_leb(spec);
+    }
+    if spec.starts_with("dwarf:") {
+        return crate::dwarf::materialize(spec);
+    }
     crate::mutate::materialize(spec)
+}
+
+use crate::mspec::*;
+
+/// LEB-boundary census module: `nfuncs` local functions of different sizes (so that walrus's size sort
+/// reorders them); function 0 has a body of exactly `big` bytes; every second function is exported (GC
+/// removes the others). No nops, no unused locals: walrus re-emits every body with the same size.
+pub fn leb_module(nfuncs: usize, big: usize, variant: u64) -> Vec<u8> {
+    let mut m = MSpec::default();
+    m.types.push((vec![], vec![VT::I32]));
+    m.types.push((vec![VT::I32], vec![VT::I32]));
+    for k in 0..nfuncs {
+        let with_param = (k as u64 + variant) % 3 == 0;
+        let with_local = (k as u64 + variant) % 4 == 1;
+        let mut c = Code::new();
+        c.i64_const(0x5157_0000_0000 + k as i64).drop_();
+        // header: locals vector
+        let header = if with_local { 3 } else { 1 };
+        let mut reps = (k * 7 + variant as usize) % 23;
+        let mut pad4 = 0usize;
+        let tail = if with_local { 2 + 2 + 2 + 1 } else if with_param { 2 + 1 } else { 2 + 1 };
+        if k == 0 && big > 0 {
+            // header + 9 (marker) + 3*reps + 4*pad4 + tail == big
+            let fixed = header + 9 + tail;
+            let mut rem = big.saturating_sub(fixed);
+            pad4 = 0;
+            while rem % 3 != 0 && rem >= 4 {
+                rem -= 4;
+                pad4 += 1;
+            }
+            reps = rem / 3;
+        }
+        for i in 0..reps {
+            c.i32_const((i % 60) as i32).drop_();
+        }
+        for _ in 0..pad4 {
+            c.i32_const(64).drop_();
+        }
+        if with_local {
+            // local 0 (or 1 with a parameter) is used: stays emitted
+            let l = if with_param { 1 } else { 0 };
+            c.i32_const(7).local_set(l).local_get(l);
+        } else if with_param {
+            c.local_get(0);
+        } else {
+            c.i32_const(1);
+        }
+        let code = c.end();
+        m.funcs.push(FuncSpec { ty: if with_param { 1 } else { 0 }, locals: if with_local { vec![(1, VT::I32)] } else { vec![] }, code });
+        if k % 2 == 0 || nfuncs <= 2 {
+            m.exports.push(Export { name: format!("f{}", k), kind: ExportKind::Func, index: k as u32 });
+        }
+    }
+    m.encode()
+}
+
+pub const LEB_FUNC_COUNTS: [usize; 5] = [1, 2, 127, 128, 129];
+pub const LEB_BODY_SIZES: [usize; 7] = [60, 126, 127, 128, 129, 16383, 16384];
+
+pub fn leb_specs(thorough: bool) -> Vec<String> {
+    let mut v = Vec::new();
+    for n in LEB_FUNC_COUNTS {
+        for b in LEB_BODY_SIZES {
+            v.push(format!("leb:{}:{}:0", n, b));
+        }
+    }
+    if thorough {
+        for n in [16383usize, 16384] {
+            v.push(format!("leb:{}:128:1", n));
+        }
+    }
+    v
+}
+
+pub fn materialize_leb(spec: &str) -> Option<Vec<u8>> {
+    let rest = spec.strip_prefix("leb:")?;
+    let mut it = rest.splitn(3, ':');
+    let n: usize = it.next()?.parse().ok()?;
+    let b: usize = it.next()?.parse().ok()?;
+    let v: u64 = it.next()?.parse().ok()?;
+    Some(leb_module(n, b, v))
 }
